@@ -94,6 +94,27 @@ fn multi_file_states() -> Vec<State> {
     out.push(mk(3, &[(0, 1), (1, 2), (2, 0)], "cycle-3"));
     out.push(mk(3, &[(0, 1), (0, 2), (1, 2), (2, 1)], "mutual-3"));
     out.push(mk(2, &[(0, 1), (0, 0)], "self-import"));
+    // two namespaces with ONE abbreviation: (a) the root declares prefix a before prefix b but imports
+    // b's file first; (b) a chain root -> mid -> leaf in which the LEAF shares its abbreviation with the root
+    {
+        let one = "http://zv.example/one/types";
+        let two = "http://zv.example/two/types";
+        let root_ns = "http://zv.example/rootspace";
+        let leaf = |name: &str, ns: &str, ty: &str| XsdFile { name: name.into(), tns: ns.into(), prefixes: vec![("own".into(), ns.into())], default_ns: None, imports: vec![], comps: vec![complex(ty, vec![el("V", TypeRef::b("string"))])] };
+        let root = XsdFile {
+            name: "m0.xsd".into(),
+            tns: root_ns.into(),
+            prefixes: vec![("r".into(), root_ns.into()), ("a".into(), one.into()), ("b".into(), two.into())],
+            default_ns: None,
+            imports: vec![Import { ns: two.into(), loc: Some("m2.xsd".into()) }, Import { ns: one.into(), loc: Some("m1.xsd".into()) }],
+            comps: vec![complex("UsesBoth", vec![el("P", TypeRef::n(one, "Person")), el("Q", TypeRef::n(two, "Product"))])],
+        };
+        out.push(State { label: "files same-abbreviation-prefix-order-differs-from-import-order".into(), depth: 1, set: SchemaSet { files: vec![root, leaf("m1.xsd", one, "Person"), leaf("m2.xsd", two, "Product")], wsdl: None, start: "m0.xsd".into() } });
+        let mid_ns = "http://zv.example/mid/other";
+        let root = XsdFile { name: "m0.xsd".into(), tns: one.into(), prefixes: vec![("r".into(), one.into()), ("m".into(), mid_ns.into())], default_ns: None, imports: vec![Import { ns: mid_ns.into(), loc: Some("m1.xsd".into()) }], comps: vec![complex("Top", vec![el("M", TypeRef::n(mid_ns, "Mid"))])] };
+        let mid = XsdFile { name: "m1.xsd".into(), tns: mid_ns.into(), prefixes: vec![("m".into(), mid_ns.into()), ("l".into(), two.into())], default_ns: None, imports: vec![Import { ns: two.into(), loc: Some("m2.xsd".into()) }], comps: vec![complex("Mid", vec![el("L", TypeRef::n(two, "Product"))])] };
+        out.push(State { label: "files chain-whose-leaf-shares-the-roots-abbreviation".into(), depth: 1, set: SchemaSet { files: vec![root, mid, leaf("m2.xsd", two, "Product")], wsdl: None, start: "m0.xsd".into() } });
+    }
     // two imported namespaces with ONE abbreviation whose prefixes are declared on the referring
     // components only (never on the root element)
     {
@@ -210,7 +231,7 @@ pub fn check(tier: &str) -> i32 {
     rep.set("batch", json!({"packages": res.packages, "cache_hits": res.cache_hits, "build_s": res.build_secs}));
     rep.set("max_depth", json!(if tier == "thorough" { 2 } else { 1 }));
     rep.set("exhaustive", json!(true));
-    rep.set("bound", json!("XSD seed x {reduced member productions, every builtin as element+attribute, 12 names (6 styles + 6 keywords) x 8 naming positions (5 XSD, WSDL operation, message part, service), 7 multi-file import graphs (3-4 files: chain, diamond, cycle, mutual, self, colliding abbreviations with component-level prefixes)}; WSDL seed x {operation name styles, input-only, 1-3 header parts per direction, explicit parts, no soapAction, part named as element, elements in an imported namespace, 2-3 operations, service name styles, addresses}; a global element and a type sharing one name in one namespace (3 variants x declaration order); kitchen-sink documents; thorough: all pairs of WSDL productions and the depth-2 member pairs of C02"));
+    rep.set("bound", json!("XSD seed x {reduced member productions, every builtin as element+attribute, 12 names (6 styles + 6 keywords) x 8 naming positions (5 XSD, WSDL operation, message part, service), 9 multi-file import graphs (3-4 files: chain, diamond, cycle, mutual, self, colliding abbreviations with component-level prefixes, with prefix order differing from import order, with a chain whose leaf shares the root's abbreviation)}; WSDL seed x {operation name styles, input-only, 1-3 header parts per direction, explicit parts, no soapAction, part named as element, elements in an imported namespace, 2-3 operations, service name styles, addresses}; a global element and a type sharing one name in one namespace (3 variants x declaration order); kitchen-sink documents; thorough: all pairs of WSDL productions and the depth-2 member pairs of C02"));
     rep.assume("rustc 1.95 and the six crates at the versions of /repo/Cargo.lock; the package manifest lists exactly those six, so a reference to zeep or any other crate cannot resolve");
     rep.assume("compile results are memoised per package on a hash of all package sources (pure function of the text); zeep itself is always re-run");
     rep.finish()
